@@ -34,3 +34,44 @@ func vfC11_PackerIsolation() {
 	vfAssert(d2 == netip.AddrPortFrom(netip.AddrFrom4([4]byte{10, 0, 0, 2}), 443), "session 2's datagram goes to the resolution of its own target")
 	vfReach("end")
 }
+
+// vfC11_PackerSequence: one session sends a sequence of datagrams to targets drawn from two
+// resolvable domains, one unresolvable domain and one IP address, with symbolic ports.  Every
+// datagram that is packed leaves towards the resolution of its own target; a datagram whose target
+// does not resolve is not sent at all - whatever was sent or failed before it.
+//   cases: steps
+func vfC11_PackerSequence() {
+	vfSetResolve("a.test", [4]byte{10, 0, 0, 1})
+	vfSetResolve("b.test", [4]byte{10, 0, 0, 2})
+	c := NewDirectUDPClient("d", "ip4", 1500, conn.ListenConfig{})
+	_, s, err := c.NewSession(context.Background())
+	vfAssert(err == nil, "session")
+	steps := vfCase("steps")
+	for i := 0; i < steps; i++ {
+		k := int(vfConcretize(uint64(vfU8("target")), 0, 3))
+		port := vfU16("port")
+		var t conn.Addr
+		var want netip.Addr
+		switch k {
+		case 0:
+			t, want = conn.MustAddrFromDomainPort("a.test", port), netip.AddrFrom4([4]byte{10, 0, 0, 1})
+		case 1:
+			t, want = conn.MustAddrFromDomainPort("b.test", port), netip.AddrFrom4([4]byte{10, 0, 0, 2})
+		case 2:
+			t = conn.MustAddrFromDomainPort("nx.test", port)
+		case 3:
+			want = netip.AddrFrom4([4]byte{192, 0, 2, 7})
+			t = conn.AddrFromIPAndPort(want, port)
+		}
+		b := make([]byte, 64)
+		d, start, n, err := s.Packer.PackInPlace(context.Background(), b, t, 8, 16)
+		if k == 2 {
+			vfAssert(err != nil, "a datagram whose target does not resolve is not sent")
+			continue
+		}
+		vfAssert(err == nil && start == 8 && n == 16, "datagram packed with its payload in place")
+		vfAssert(d.Port() == port, "destination port is the target's")
+		vfAssert(d.Addr().Unmap() == want, "the datagram leaves towards the resolution of its own target")
+	}
+	vfReach("end")
+}
